@@ -24,7 +24,7 @@ RUNS = {"quick": 60000, "thorough": 1500000}
 WALL = {"quick": 240, "thorough": 1500}
 PARTITIONS = [{"name": "default", "env": {}}]
 FAULT_KINDS = ["reorder", "batch_split", "empty_batch", "nan_entry", "interleave", "outside_value",
-               "edge_value", "gap_value", "keep_missed_off"]
+               "edge_value", "gap_value", "keep_missed_off", "rebin_between_epochs"]
 RULE = ("one run = one seeded stream (<= 30 entries from an edge-centred pool) delivered to 2-4 replicas over "
         "equal fixed bins (1-3 D, all binning families, dtypes, keep_missed on/off, weights none/int/dyadic/float) "
         "by different schedules whose deliveries are interleaved; distinct = distinct sequence of "
@@ -61,6 +61,7 @@ def gen_config(rng):
         # value type of the stream: float64 values, or values representable in float32 that are handed over
         # in single precision by some deliveries (numpy float32 scalars / arrays) and in double by others
         "vtype": rng.choice(["f64", "f64", "f64", "f32"]),
+        "shared_arrays": rng.random() < 0.2,
     }
 
 
@@ -159,6 +160,10 @@ def generate(rng, seed, part):
             q = rng.choice(live)
             ops.append(q.pop(0))
         ops.append({"op": "barrier"})
+        if ep + 1 < n_epochs and rng.random() < 0.35:
+            # between two epochs every replica is re-binned in place in the same way (the bins stay fixed and equal
+            # afterwards): state cached by earlier fill / find_bin calls must not survive it
+            ops.append({"op": "rebin", "axis": rng.randrange(ndim), "amount": rng.choice([2, 2, 3])})
     return {"property": PROPERTY, "scenario": "stream_fixed", "config": cfg, "entries": entries, "ops": ops}
 
 
@@ -230,8 +235,25 @@ def execute(plan, ctx):
             reps[r] = Rep()
         return reps[r]
 
+    caller_arrays = []
+
     def ensure(R):
         if R.h is None:
+            if cfg.get("shared_arrays") and hs.get("dtype"):
+                # the empty replica is built from ONE caller-owned zero array given as contents and as squared
+                # errors (a legal call); the histogram must neither alias the two nor write into the caller's array
+                axes = [build.make_binning(a) for a in hs["axes"]]
+                shape = tuple(b.bin_count for b in axes)
+                arr = np.zeros(shape, dtype=np.dtype(hs["dtype"]))
+                caller_arrays.append(arr)
+                cls = build.hist_class(ndim)
+                kw = {"frequencies": arr, "errors2": arr, "keep_missed": hs["keep_missed"],
+                      "dtype": np.dtype(hs["dtype"])}
+                ok_, res_ = attempt(lambda: cls(axes[0], **kw) if ndim == 1 else cls(axes, **kw))
+                if ok_:
+                    R.h = res_
+                    ctx.probe("replica_from_shared_caller_array")
+                    return
             R.h = build.make_empty(hs)
 
     def classify(v):
@@ -286,6 +308,24 @@ def execute(plan, ctx):
             ctx.abstract("barrier", len(groups))
             continue
 
+        if kind == "rebin":
+            ax = op["axis"] % ndim
+            live = [R for R in reps.values() if R.h is not None and not R.poisoned]
+            if len(live) != len(cfg["replicas"]) or len(reps) != len(cfg["replicas"]):
+                continue  # a replica that does not exist yet would be created over the old bins
+            if not live or any(R.h.shape[ax] < 2 or not bool(R.h.binnings[ax].is_consecutive())
+                               or not np.array_equal(np.asarray(R.h.binnings[ax].bins), np.asarray(live[0].h.binnings[ax].bins))
+                               for R in live):
+                continue
+            for R in live:
+                ok, res = attempt(R.h.merge_bins, op["amount"], axis=ax, inplace=True)
+                if not ok:
+                    R.poisoned = True
+                    ctx.probe("rebin_failed:" + type(res).__name__)
+            ctx.ev("src", "rebin", ax, op["amount"])
+            ctx.abstract("rebin", ax, op["amount"])
+            ctx.fault("rebin_between_epochs")
+            continue
         r = op["r"]
         R = rep(r)
         if R.poisoned:
@@ -475,6 +515,11 @@ def execute(plan, ctx):
                     ctx.violation("C03/empty-batch-noop", f"C03/empty-batch-changes/{hist_kind(hs)}",
                                   "an empty fill_n batch changed the histogram")
             continue
+    for arr in caller_arrays:
+        if np.any(arr != 0):
+            ctx.violation("C03/callers-array-untouched", f"C03/caller-array-modified/{hist_kind(hs)}",
+                          f"filling a histogram constructed from a caller-owned zero array wrote into that array: "
+                          f"{arr.tolist()}"[:600])
     # interleaving accounting: number of switches between replicas in the op list
     sw = 0
     prev = None
